@@ -975,6 +975,7 @@ def gen_api_program(rng, i):
         elif r < 0.80: ops.append(rng.choice(["tos,%d,%d,46" % (a, sid()), "name,%d,%d,audio" % (a, sid()), "setcreds,%d,%d,abcd,abcdefghijklmnopqrstuvwx" % (a, sid())]))
         elif r < 0.82: ops.append("hole,10.0.%d.1,10.0.%d.1,%s" % (a, 1 - a, rng.choice(["on", "off"])))
         elif r < 0.84: ops.append("sendfail,10.0.%d.1,%s" % (a, rng.choice(["on", "on", "off"])))      # sendto() towards that host fails (route gone, EPERM)
+        elif r < 0.87: ops.append("recvfail,10.0.%d.1,%d" % (a, rng.randrange(3)))      # recvmsg() on one of that host's sockets fails once: the agent drops the socket
         else: ops.append("run,%d" % rng.choice([0, 1, 10, 25, 300, 5000, 31000]))
     # the end: idle measurement, then tear-down in a random order
     if rng.random() < 0.15:
